@@ -63,9 +63,30 @@ def to_impl_item(x):
     raise ValueError(k)
 
 
+BUILD_BY_APPENDING = [False]      # set by the generators for some cases: containers are filled after construction
+
+
 def to_impl(p):
     from pynetdicom2 import pdu
     k = p[0]
+    if BUILD_BY_APPENDING[0]:
+        if k == 'PData':
+            obj = pdu.PDataTfPDU([], p[1])
+            for c, d in p[2]:
+                obj.data_value_items.append(pdu.PresentationDataValueItem(c, bytes(d)))
+            return obj
+        if k == 'Assoc':
+            cls = pdu.AAssociateRqPDU if p[1] == 'KRq' else pdu.AAssociateAcPDU
+            obj = cls(s_(p[5]), s_(p[6]), [], p[3], p[2], p[4], tuple(p[7]))
+            for i in p[8]:
+                it = to_impl_item(i)
+                if i[0] == 'UserInfo':
+                    subs = list(it.user_data)
+                    it = pdu.UserInformationItem([], i[1])
+                    for sub in subs:
+                        it.user_data.append(sub)
+                obj.variable_items.append(it)
+            return obj
     if k == 'Assoc':
         cls = pdu.AAssociateRqPDU if p[1] == 'KRq' else pdu.AAssociateAcPDU
         return cls(s_(p[5]), s_(p[6]), [to_impl_item(i) for i in p[8]], p[3], p[2], p[4], tuple(p[7]))
@@ -251,7 +272,7 @@ def g_name(rng, n=None, lo=0, hi=16):
 
 def g_utf8(rng, n=None):
     if n is None:
-        n = rng.choice([0, 1, 5, 20])
+        n = rng.choice([0, 1, 5, 20] * 30 + [32767, 32768, 40000])
     alphabet = ['a', 'b', 'Z', '0', '-', 'é', 'ß', 'Ж', '中', '😀', ' ']
     return ''.join(rng.choice(alphabet) for _ in range(n)).encode('utf-8')
 
